@@ -187,6 +187,15 @@ def make_real(case):
             except Exception: pass
         for prop in IJ_PROPS:
             props[prop] = [("%d%d" % tuple(k.v), numpy.array(v, dtype=float)) for k, v in getattr(base, prop).items()]
+        if case["base"] == "tp":
+            # independent expectation for the pressure base: the calculator's own volume-base tensors converted here with
+            # qha.v2p (not what the pressure-base views hand out), so a view that serves the wrong tensor is visible
+            from qha.v2p import v2p
+            p_tv = numpy.asarray(calc.qha_calculator.volume_base.pressures, dtype=float)
+            for prop in IJ_PROPS:
+                src = getattr(calc, prop)
+                props[prop] = [("%d%d" % tuple(k.v), numpy.array(v2p(numpy.asarray(src[k], dtype=float), p_tv, numpy.asarray(base.p_array, dtype=float)), dtype=float))
+                               for k, _ in getattr(base, prop).items()]
     axis = base.p_array if case["base"] == "tp" else base.v_array
     return base, {"name_expected": case["base"], "t": numpy.asarray(base.t_array, dtype=float),
                   "axis": numpy.asarray(axis, dtype=float), "props": props, "base_name": base._base_name}
